@@ -1,7 +1,7 @@
 import vlib, common
 
 RULE = 'crash: a child process applies a log on RocksDB and is killed (SIGKILL) immediately before / immediately after the store write of a chosen apply, or at a random instant under a real raft node; the parent reopens the data, checks the state equals a prefix applied exactly once (tables compared with a never-crashed twin), replays the log (each remaining entry applied once, applied ones refused), and verifies every snapshot acknowledged before the kill. fsm: lives with re-delivery compared with the Coq model. distinct = (workload, crash point)'
-CMDS = ['crash', 'fsm']
+CMDS = ['crash', 'fsm', 'transfer']
 CASES = {'fsm': ('run_fsm_cases', 'C07_recovery (Fsm/Fsm.v deliver vs consensus/fsm.go)')}
 
 
